@@ -66,7 +66,9 @@ func (d *db) StoreKeys(ctx context.Context, res map[gmsl.PublicKeyLookupRequest]
 	return nil
 }
 
-func uid(_ spec.RoomID, s spec.SenderID) (*spec.UserID, error) { return spec.NewUserID(string(s), true) }
+func uid(_ spec.RoomID, s spec.SenderID) (*spec.UserID, error) {
+	return spec.NewUserID(string(s), true)
+}
 
 var vnow time.Time
 
